@@ -107,6 +107,24 @@ return (out, [[t] for t in (t0, t1) if like_ref(t, PAT)])
     return Obl('like_where[%s,len=%d]' % (pat.encode('unicode_escape').decode(), L), src, timeout=timeout, meta={'query': q, 'pattern': pat, 'bounds': 'text0 length %d, text1 length <= 1' % L})
 
 
+def _computed_pattern_obl(L, timeout):
+    """The pattern is computed per record (a2 + '%'): the matcher cache must be keyed by the pattern VALUE."""
+    from vf.gen import str_params
+    p0, pre0, e0 = str_params('t0', L)
+    params = p0 + [('s0', 'bool'), ('s1', 'bool'), ('s2', 'bool')]
+    pre = pre0 + ['%s != 10' % n for n, _t in p0]
+    body = indent('''
+pats = ['ab' if s0 else 'b', 'b' if s1 else 'a_', 'a_' if s2 else 'ab']
+rows = [[%s, pats[0]], ['ab', pats[1]], ['b', pats[2]], ['aXb', pats[0]], ['ab', pats[2]], ['bb', pats[1]], ['a', pats[0]], ['axe', pats[2]]]
+out = []
+rbql_engine.query_table(QUERY, rows, out, [])
+return (out, [[like_ref(r[0], r[1] + '%%')] for r in rows])
+''' % e0)
+    q = "select like(a1, a2 + '%')"
+    src = harness('QUERY = %r\n' % q, params, pre, body, extra_defs=REF_SRC)
+    return Obl('like_computed_pattern[len=%d]' % L, src, timeout=timeout, meta={'query': q, 'bounds': '8 rows, first text of length %d symbolic, patterns chosen per row from {ab%%, b%%, a_%%} by symbolic bools' % L})
+
+
 def patterns(maxlen, seed=0):
     """Every shape of length 1..maxlen over {%, _, literal}; literals rotate through the hostile alphabet."""
     res = ['']
@@ -134,6 +152,7 @@ def obligations(tier, seed):
             obs.append(_match_obl(p, 3 if len(p) == 3 else 4, 1, 90))
         for p in ['a%', '%.', '_b', 'a.b', '%a%', '\\', '(_']:
             obs.append(_match_obl(p, 2, 2, 90))
+        obs.append(_computed_pattern_obl(2, 90))
         obs.append(_where_obl('%b', 3, 90))
         obs.append(_where_obl('[_', 3, 90))
     else:
@@ -148,6 +167,8 @@ def obligations(tier, seed):
             obs.append(_match_obl('%' + h + '_', 4, 1, 300))
         for p in patterns(2, seed + 3):
             obs.append(_match_obl(p, 3, 2, 600))
+        for L in (1, 2, 3):
+            obs.append(_computed_pattern_obl(L, 600))
         for p in ['%b', '[_', 'a%b', '.*', '^a$', 'a|b']:
             obs.append(_where_obl(p, 4, 600))
     # names must be unique
